@@ -158,6 +158,7 @@ def renderOpen (name : Str) (decls : List (Pfx × Str)) (attrs : List (Str × St
 /-- the text `XMLGenerator(short_empty_elements=True)` wrote for these tokens -/
 def render : List Tok → Str
   | [] => []
+  | [.open_ n d a] => renderOpen n d a            -- `endDocument` does not finish a pending start tag
   | .open_ n d a :: .close _ :: r => renderOpen n d a ++ '/' :: '>' :: render r
   | .open_ n d a :: r => renderOpen n d a ++ '>' :: render r
   | .text s :: r => escape s ++ render r
